@@ -35,7 +35,7 @@ var (
 )
 
 func checkC04(c *core.Ctx, l *core.Ledger) {
-	l.Explanation = "Static clauses of C04 (sibling agreement), on every feasible shape class of each template pair: (SIB-DECODE) FromWire and Decode of struct-like types have the same field arms (id guard, type guard, assignment target, required/optional form, presence flags) and the same post-loop checks; (SIB-ENCODE) ToWire and Encode write each field under the same guard, nil-check, default substitution and arity check; (SIB-CONTAINER) the value and stream forms of list/set/map readers decode the same element types in the same order and build the collection the same way, and of the writers check and write the same elements; the one intentional asymmetry (type-mismatched container: absent vs. skip exactly Length elements) is the CONTAINER-MISMATCH rule of C05; (SIB-WRAPPER) typedef, enum and struct helper pairs are identical up to the path-specific primitive; (SIB-REQUEST) the two request decoders have identical classification arms (with C12); (FULL-READ) every use of the StreamReader's wrapped io.Reader is an argument of io.ReadFull or io.CopyN (or a reset/type test), so how the byte stream is split into reads cannot influence what is decoded. (WIDE-ARITH) a count read from the wire is multiplied only in 64 bits: a 32-bit product wraps, and the pre-scan of the value-based reader then accepts a container header the streaming decoder rejects. (W-FAIL-CAUSES) the serializers of protocol/binary (StreamWriter, Writer and everything they reach in the package) originate an error only when re-wording one they received or for a wire type outside the protocol — no condition on the content or shape of a valid value (nesting depth, string content) makes a serializer fail. NOT decided: equality of the decoded Go values; behaviour on invalid Go values."
+	l.Explanation = "Static clauses of C04 (sibling agreement), on every feasible shape class of each template pair: (SIB-DECODE) FromWire and Decode of struct-like types have the same field arms (id guard, type guard, assignment target, required/optional form, presence flags) and the same post-loop checks; (SIB-ENCODE) ToWire and Encode write each field under the same guard, nil-check, default substitution and arity check; (SIB-CONTAINER) the value and stream forms of list/set/map readers decode the same element types in the same order and build the collection the same way, and of the writers check and write the same elements; the one intentional asymmetry (type-mismatched container: absent vs. skip exactly Length elements) is the CONTAINER-MISMATCH rule of C05; (SIB-WRAPPER) typedef, enum and struct helper pairs are identical up to the path-specific primitive; (SIB-REQUEST) the two request decoders have identical classification arms (with C12); (FULL-READ) every use of the StreamReader's wrapped io.Reader is an argument of io.ReadFull or io.CopyN (or a reset/type test), so how the byte stream is split into reads cannot influence what is decoded. (WIDE-ARITH) a count read from the wire is multiplied only in 64 bits: a 32-bit product wraps, and the pre-scan of the value-based reader then accepts a container header the streaming decoder rejects. (W-FAIL-CAUSES) the serializers of protocol/binary (StreamWriter, Writer and everything they reach in the package) originate an error only when re-wording one they received or for a wire type outside the protocol — no condition on the content or shape of a valid value (nesting depth, string content) makes a serializer fail. (ERR-KEEP) no error value is lost: none is assigned to a variable that is never read (an inner declaration shadowing the checked one), none is overwritten by the next loop iteration unseen, and no deferred function replaces the error result without regard to the error already there. NOT decided: equality of the decoded Go values; behaviour on invalid Go values."
 	l.RuleText = "one obligation per (template pair, shape class)"
 	l.Exhaustive = true
 	mod := tmpl.Extract(c)
@@ -208,6 +208,7 @@ func checkC04(c *core.Ctx, l *core.Ledger) {
 		checkWideArith(c, l, core.SortedFuncs(d), func(f *ssa.Function) bool { _, ok := d[f]; return ok })
 	}
 	checkWriteFailCauses(c, l)
+	checkErrKeep(c, l, "ERR-KEEP", []string{"protocol/binary", "wire", "protocol"})
 	checkStreamReaderFullRead(c, l)
 	checkNoRawRead(c, l, "FULL-READ", []string{"protocol/binary"})
 	checkReaderAdapters(c, l, "READER-ADAPTER", []string{"protocol/binary", "protocol", "envelope", "internal/envelope"})
